@@ -1146,9 +1146,20 @@ def fill_ranges(chk, ctx):
         except Exception:
             continue
         ok_hi = got_hi == want_hi
+        # a difference is definite only if the loop bound is written over names whose meaning is known here: parameters
+        # of the builder and variables of enclosing range loops (a local bound by `enumerate`, a helper's parameter, ...
+        # may well stand for the dimension's size)
+        known_names = {a.arg for a in fn.args.args} | {x.id for x in ast.walk(resolve(size, loop.lineno)) if isinstance(x, ast.Name)} \
+            | {l_.target.id for l_ in ast.walk(fn) if isinstance(l_, ast.For) and isinstance(l_.target, ast.Name)
+               and isinstance(l_.iter, ast.Call) and getattr(l_.iter.func, "id", None) == "range"} | {"len"}
+        hi_names = {x.id for x in ast.walk(resolve(hi, loop.lineno)) if isinstance(x, ast.Name)}
+        definite_hi = hi_names <= known_names
         lo_c = lo.value if isinstance(lo, ast.Constant) and isinstance(lo.value, int) else None
         bmax = max(borders.get((d, level_key(idxs[0])), {-1})) if d > 0 else None
         ok_lo = True if (d == 0 or lo_c is None) else (lo_c <= bmax + 1)
+        if not ok_hi and ok_lo and not definite_hi:
+            chk.note(f"C07.TABLE/fill-loop: `for {v} in {ast.unparse(loop.iter)}` is written over names the rule cannot resolve; not compared")
+            continue
         chk.decide("C07.TABLE", cons, True if (ok_hi and ok_lo) else False,
                    f"`for {v} in {ast.unparse(loop.iter)}` fills dimension {d} of `{tab}`: "
                    + ("runs to the end of the dimension" if ok_hi else f"ends at {ast.unparse(hi)}, the dimension has {ast.unparse(size)} entries")
